@@ -366,3 +366,67 @@ def r6(ctx):
     for fi, node, what in writes:
         ctx.fail(fi, f"cross-call state: {what}", line=getattr(node, "lineno", 0), role=f"module-state:{what}",
                  expected="results do not depend on earlier calls", found=unparse(node))
+
+
+@rule("C14", "R4", "PURE", "an optimisation task writes nothing but objects it allocated itself and reads no mutable module state", floor=2)
+def r4(ctx):
+    from .own import describe, ownership
+    ana = ctx.ana
+    q = "admm.front_end.admm_optimize_theta"
+    fi = ana.func(q)
+    oa = ownership(ana, q)
+    bad = [(m, [o for o in m.targets if o.kind in ("ext", "glob", "memo")]) for m in oa.mutations]
+    bad = [(m, objs) for m, objs in bad if objs]
+    for m, objs in bad:
+        ctx.fail(fi, f"the task may write a non-local object at {describe(m)}", role=f"task-write:{short(m.func.qualname)}:{m.kind}",
+                 expected="only objects allocated by the task", found=", ".join(map(str, objs))[:120])
+    if not bad:
+        ctx.ok(fi, f"all {len(oa.mutations)} mutation sites reachable from the task write task-allocated objects only "
+                   "(e.g. args.rho is a field of the ADMMArguments built by the task)", role="task-write")
+    # reads of module-level mutables
+    reach = ana.res.reachable([q])
+    reads = []
+    for fq in reach:
+        f = ana.prog.functions[fq]
+        locs = ana.res.local_names(f)
+        for n in Resolver.walk_own(f.node):
+            if isinstance(n, ast.Name) and isinstance(n.ctx, ast.Load) and n.id not in locs and n.id in f.module.globals:
+                st = f.module.globals[n.id]
+                is_logger = isinstance(st, ast.Assign) and isinstance(st.value, ast.Call) and "getLogger" in unparse(st.value.func)
+                is_const = isinstance(st, ast.Assign) and isinstance(st.value, ast.Constant) and f.module.global_assign_count.get(n.id, 0) == 1
+                is_alias = isinstance(st, ast.Assign) and isinstance(st.value, (ast.Subscript, ast.Attribute, ast.Name)) and f.module.name.endswith("ticc_types")
+                if not (is_logger or is_const or is_alias):
+                    reads.append((f, n))
+    ctx.check(not reads, fi, f"the {len(reach)} functions of the task's call tree read no mutable module-level object", role="task-reads",
+              expected="loggers and constants only", found=", ".join(f"{short(f.qualname)}:{n.id}" for f, n in reads)[:160])
+
+
+@rule("C14", "R5", "PURE", "memoised helpers depend only on their hashable arguments and their results are never modified", floor=4)
+def r5(ctx):
+    from .own import describe, ownership
+    ana = ctx.ana
+    cached = [f for f in ana.prog.functions.values() if any("functools.cache" in unparse(d) or "lru_cache" in unparse(d) for d in f.decorators)]
+    if len(cached) < 4:
+        raise AnalysisError(f"only {len(cached)} memoised functions found (confirmed floor: 4)")
+    for f in cached:
+        anns = [unparse(f.param_annotation(p)) if f.param_annotation(p) is not None else "" for p in f.params]
+        ctx.check(all(a == "int" for a in anns), f, "cache key is a tuple of ints (hashable, immutable)", role=f"memo-key:{short(f.qualname)}",
+                  expected="all parameters annotated int", found=", ".join(anns))
+        locs = ana.res.local_names(f)
+        globs = [n.id for n in Resolver.walk_own(f.node) if isinstance(n, ast.Name) and isinstance(n.ctx, ast.Load) and n.id not in locs
+                 and n.id in f.module.globals and not isinstance(f.module.globals[n.id], (ast.FunctionDef,))]
+        ctx.check(not globs, f, "the memoised body reads no module-level variable (its value depends on the arguments only)",
+                  role=f"memo-body:{short(f.qualname)}", expected="no module-level variable", found=", ".join(globs))
+    for q in ("front_end.ticc_labels", "front_end.ticc_joint_labels", "admm.front_end.admm_optimize_theta"):
+        oa = ownership(ana, q)
+        memo_objs = {o for o in oa.stats["objects"] if o.kind == "memo"}
+        reach = oa.reachable(memo_objs)
+        bad = [(m, [o for o in m.targets if o in reach]) for m in oa.mutations]
+        bad = [(m, objs) for m, objs in bad if objs]
+        fi = ana.func(q)
+        for m, objs in bad:
+            ctx.fail(fi, f"a memoised result may be modified at {describe(m)}: later calls with the same key would see the edit",
+                     role=f"memo-write:{short(m.func.qualname)}:{m.kind}", expected="cached index lists are read-only", found=", ".join(map(str, objs))[:120])
+        if not bad:
+            ctx.ok(fi, f"no mutation site reachable from {short(q)} can write one of the {len(memo_objs)} memoised result objects "
+                       "(they are only used as indices)", role=f"memo-write:{short(q)}")
